@@ -186,6 +186,12 @@ class NormCtx:
                 (m, c), = q.items()
                 if all((self.P.atoms[a][0] == 'sqrt' and e > 0) or e % 2 == 0 for a, e in m):
                     self.facts[key] = v >= 0
+                elif len(m) == 1 and m[0][1] == 1 and self.P.atoms[m[0][0]][0] == 'node':
+                    nd = self.P.atoms[m[0][0]][1]
+                    if nd.op == 'uf' and nd.args[0] == 'acos':
+                        self.facts[key] = z3.And(v >= 0, v <= z3.RealVal('3.141592653589794'))
+                    elif nd.op == 'abs':
+                        self.facts[key] = v >= 0
         return v
 
     def tr(self, n):
@@ -508,10 +514,11 @@ class PathController:
             self.stats['replayed'] += 1
             self._assert(cond if d.taken else S.bnot(cond))
             return d.taken
-        if self.generic_position and cond.op in ('eq', 'ne') and cond.args[0].sort == 'R':
-            # degeneracy guard on a real quantity (x == c): the claim is restricted to inputs in generic position,
-            # i.e. the non-equal side is assumed (recorded) provided it is feasible
-            want = cond.op == 'ne'
+        guard = self.degeneracy_guard(cond) if self.generic_position else None
+        if guard is not None:
+            # degeneracy guard on a real quantity (x == c, |x| <= tiny, |x| <= eps*|y|): the claim is restricted to inputs
+            # in generic position, i.e. the non-degenerate side is assumed (recorded) provided it is feasible
+            want = guard
             side = cond if want else S.bnot(cond)
             r = self._check(side)
             if r != z3.unsat:
@@ -546,12 +553,60 @@ class PathController:
         self._assert(cond if ft else S.bnot(cond))
         return ft
 
+    @staticmethod
+    def _tiny(n, bound):
+        c = S.cval(n)
+        return c is not None and 0 <= c <= bound
+
+    def _small(self, n):
+        """constant <= 1e-100, or a product containing a constant factor <= 1e-10 (epsilon-scaled quantity)"""
+        c = S.cval(n)
+        if c is not None:
+            return 0 <= c <= Fraction(1, 10 ** 100)
+        if n.op == 'mul':
+            for t in n.args:
+                ct = S.cval(t)
+                if ct is not None and 0 <= ct <= Fraction(1, 10 ** 10): return True
+                if t.op == 'mul' and self._small(t): return True
+        return False
+
+    def degeneracy_guard(self, cond):
+        """truth value to assume for a degeneracy test (x == c, x <= tiny, x <= eps*y and boolean combinations), else None"""
+        op = cond.op
+        if op in ('eq', 'ne') and cond.args[0].sort == 'R':
+            return op == 'ne'
+        if op in ('le', 'lt', 'ge', 'gt') and cond.args[0].sort == 'R':
+            x, y = cond.args
+            if self._small(y) and not self._small(x): return op in ('gt', 'ge')
+            if self._small(x) and not self._small(y): return op in ('lt', 'le')
+            return None
+        if op == 'not':
+            g = self.degeneracy_guard(cond.args[0])
+            return None if g is None else (not g)
+        if op == 'and':
+            ga = self.degeneracy_guard(cond.args[0]); gb = self.degeneracy_guard(cond.args[1])
+            if ga is False or gb is False: return False
+            if ga is True and gb is True: return True
+            return None
+        if op == 'or':
+            ga = self.degeneracy_guard(cond.args[0]); gb = self.degeneracy_guard(cond.args[1])
+            if ga is True or gb is True: return True
+            if ga is False and gb is False: return False
+            return None
+        return None
+
     def sign_of(self, x, it):
-        """+1 if x >= 0 is implied by the path condition, -1 if x <= 0 is implied, else 0 (no fork)"""
-        r = self._check(S.cmp('lt', x, S.ZERO))
-        if r == z3.unsat: return 1
-        r = self._check(S.cmp('gt', x, S.ZERO))
-        if r == z3.unsat: return -1
+        """+1 if x >= 0 is implied by the path condition, -1 if x <= 0 is implied, else 0 (no fork).
+        Cheap: normalised stage, then a short full query."""
+        old = self.branch_timeout_ms
+        self.branch_timeout_ms = min(old, 1500)
+        try:
+            r = self._check(S.cmp('lt', x, S.ZERO))
+            if r == z3.unsat: return 1
+            r = self._check(S.cmp('gt', x, S.ZERO))
+            if r == z3.unsat: return -1
+        finally:
+            self.branch_timeout_ms = old
         return 0
 
     def concretize(self, v, it):
@@ -663,7 +718,7 @@ def prove(z, pc_nodes, claim, timeout_ms=60000, name='', want_model=True):
         return 'proved', None
     sl, dropped = slice_context(z, pc_nodes, neg)
     if dropped:
-        r, s = _solve(z, sl + [neg], timeout_ms)
+        r, s = _solve(z, sl + [neg], max(1000, timeout_ms // 3))
         if r == z3.unsat:
             return 'proved', None
     r, s = _solve(z, list(pc_nodes) + [neg], timeout_ms)
